@@ -1,39 +1,79 @@
 #!/usr/bin/env python3
-"""Apply each seeded mutant to /repo, run the claimed checks (quick), revert; record which checks
-flag it.  usage: tools/run_seeded.py [mutant-id ...] [--props C01,C02] [--tier quick]"""
-import json, os, subprocess, sys, glob, time
+"""Judge each seeded mutant with the claimed checks and record which checks flag it.
+
+Default mode works on SCRATCH COPIES of /repo and of the harness under /tmp (removed afterwards), so
+that /repo, the registered evidence and the main cache are never touched and several mutants can be
+judged in parallel:   tools/run_seeded.py [--jobs=3] [--props=C01,C02] [--tier=quick] [mutant-id ...]
+With --inplace the patch is applied to /repo itself (git apply / git checkout -- .), as the task
+brief prescribes for a final confirmation."""
+import json, os, shutil, subprocess, sys, glob, time
+from concurrent.futures import ThreadPoolExecutor
 V = os.path.dirname(os.path.dirname(os.path.abspath(__file__)))
 sys.path.insert(0, os.path.join(V, "lib"))
 import pkverif
 args = [a for a in sys.argv[1:] if not a.startswith("--")]
 props = sorted(pkverif.PROPS)
-tier = "quick"
+tier, jobs, inplace = "quick", 3, False
 for a in sys.argv[1:]:
     if a.startswith("--props="): props = a.split("=")[1].split(",")
     if a.startswith("--tier="): tier = a.split("=")[1]
+    if a.startswith("--jobs="): jobs = int(a.split("=")[1])
+    if a == "--inplace": inplace = True
 muts = args or sorted(os.path.basename(d) for d in glob.glob(os.path.join(V, "seeded", "C*-m*")))
 resf = os.path.join(V, "seeded", "RESULTS.json")
 results = json.load(open(resf)) if os.path.exists(resf) else {}
-assert subprocess.run(["git", "-C", "/repo", "status", "--porcelain", "--untracked-files=no"], stdout=subprocess.PIPE, text=True).stdout.strip() == "", "/repo not clean"
-for m in muts:
+
+def run_checks(env, row):
+    for p in props:
+        r = subprocess.run([os.path.join(V, "bin/check"), p, tier], stdout=subprocess.PIPE, stderr=subprocess.PIPE,
+                           text=True, cwd=V, env=env)
+        nv = sum(1 for l in r.stdout.splitlines() if l.startswith("VIOLATION"))
+        row[p] = {"exit": r.returncode, "violations": nv,
+                  "first": next((l for l in r.stdout.splitlines() if l.startswith("  case:")), "")[:300]}
+        if r.returncode == 2:
+            row[p]["err"] = r.stderr[-400:]
+
+def one(m):
     patch = os.path.join(V, "seeded", m, "patch.diff")
-    if subprocess.run(["git", "-C", "/repo", "apply", "--check", patch]).returncode != 0:
-        print(m, "patch does not apply to current /repo (base changed?)"); results.setdefault(m, {})["_apply"] = "failed"; continue
-    subprocess.check_call(["git", "-C", "/repo", "apply", patch])
+    row = {}
+    if inplace:
+        assert subprocess.run(["git", "-C", "/repo", "status", "--porcelain", "--untracked-files=no"],
+                              stdout=subprocess.PIPE, text=True).stdout.strip() == "", "/repo not clean"
+        if subprocess.run(["git", "-C", "/repo", "apply", "--check", patch]).returncode != 0:
+            return m, {"_apply": "failed"}
+        subprocess.check_call(["git", "-C", "/repo", "apply", patch])
+        try:
+            run_checks(dict(os.environ), row)
+        finally:
+            subprocess.check_call(["git", "-C", "/repo", "checkout", "--", "."])
+        return m, row
+    S = "/tmp/seedrun/%s" % m
+    shutil.rmtree(S, ignore_errors=True)
+    os.makedirs(S)
     try:
-        row = results.setdefault(m, {})
-        row.pop("_apply", None)
-        for p in props:
-            t = time.time()
-            r = subprocess.run([os.path.join(V, "bin/check"), p, tier], stdout=subprocess.PIPE, stderr=subprocess.PIPE, text=True, cwd=V)
-            nv = sum(1 for l in r.stdout.splitlines() if l.startswith("VIOLATION"))
-            row[p] = {"exit": r.returncode, "violations": nv, "first": next((l for l in r.stdout.splitlines() if l.startswith("  case:")), "")[:300]}
-            if r.returncode == 2:
-                row[p]["err"] = r.stderr[-300:]
-        flagged = [p for p in props if row[p]["exit"] == 1]
-        errs = [p for p in props if row[p]["exit"] == 2]
-        print(m, "flagged by", flagged, ("TOOL-ERRORS " + str(errs)) if errs else "", flush=True)
+        subprocess.check_call(["git", "-C", "/repo", "worktree", "add", "-q", "--detach", S + "/repo", "HEAD"])
+        if subprocess.run(["git", "-C", S + "/repo", "apply", patch]).returncode != 0:
+            return m, {"_apply": "failed"}
+        shutil.copytree(os.path.join(V, "harness"), S + "/harness", ignore=shutil.ignore_patterns("target"))
+        ct = open(S + "/harness/Cargo.toml").read().replace('path = "/repo"', 'path = "%s/repo"' % S)
+        open(S + "/harness/Cargo.toml", "w").write(ct)
+        env = dict(os.environ, PKV_REPO=S + "/repo", PKV_HARNESS=S + "/harness", PKV_WORK=S + "/work",
+                   PKV_EVID=S + "/evidence", PKV_REPLAYS=S + "/replays")
+        # share the spec-only job cache
+        os.makedirs(S + "/work/cache", exist_ok=True)
+        for d in glob.glob(os.path.join(V, "work", "cache", "spec-*")):
+            shutil.copytree(d, os.path.join(S, "work", "cache", os.path.basename(d)))
+        run_checks(env, row)
     finally:
-        subprocess.check_call(["git", "-C", "/repo", "checkout", "--", "."])
-    json.dump(results, open(resf, "w"), indent=1, sort_keys=True)
-# restore evidence for the clean tree is the caller's job (run bin/check --all afterwards)
+        subprocess.run(["git", "-C", "/repo", "worktree", "remove", "--force", S + "/repo"])
+        shutil.rmtree(S, ignore_errors=True)
+    return m, row
+
+with ThreadPoolExecutor(max_workers=1 if inplace else jobs) as ex:
+    for m, row in ex.map(one, muts):
+        results.setdefault(m, {}).update(row)
+        flagged = [p for p in props if row.get(p, {}).get("exit") == 1]
+        errs = [p for p in props if row.get(p, {}).get("exit") == 2]
+        print(m, "flagged by", flagged, ("TOOL-ERRORS " + str(errs)) if errs else "", row.get("_apply", ""), flush=True)
+        json.dump(results, open(resf, "w"), indent=1, sort_keys=True)
+subprocess.run(["git", "-C", "/repo", "worktree", "prune"])
